@@ -28,6 +28,7 @@ type Pack struct {
 	Bounded    []string `json:"bounded"`
 	TimeoutS   int      `json:"timeout_s"`
 	Replays    []ReplayTemplate `json:"replay_templates"`
+	Effects    []EffectRule     `json:"effects"`
 }
 
 type KnownFinding struct {
@@ -197,6 +198,19 @@ func cmdCheck(repo, verifDir, id, tier string) int {
 	defer os.RemoveAll(work)
 	var stats SolveStats
 	e.solveAll(all, work, &stats, tier == "thorough")
+	// effect contracts discharged by the typed call scan (already decided: no solver involved)
+	effObls := e.effectObligations(pack.Effects)
+	all = append(all, effObls...)
+	if len(effObls) > 0 {
+		stats.add("ast-scan", 0, true)
+		stats.ByBackend["ast-scan"].Calls = len(effObls)
+		stats.ByBackend["ast-scan"].Discharged = 0
+		for _, o := range effObls {
+			if o.Status == "unsat" {
+				stats.ByBackend["ast-scan"].Discharged++
+			}
+		}
+	}
 
 	// 3. group by (fn, name)
 	groups := map[string]*oblGroup{}
